@@ -15,6 +15,7 @@ height counters (start_block / in-mempool-since stamps may mix two heights) are 
 -/
 import TeosVerif.Lemmas.Tower
 import TeosVerif.Lemmas.TowerInv
+import TeosVerif.Lemmas.TowerJust
 import TeosVerif.Props.C08
 
 namespace Teos.C10
@@ -73,6 +74,86 @@ theorem late_add_takes_triggered_path (s : Tower) (node : Node) (signer : Option
         { loc := loc, user := u, blob := blob, tsd := tsd, usig := usig, start := s.mem.wHeight } d).1 := by
   unfold addAppointment
   simp [ha, hnt, hch, hc]
+
+theorem addTracker_cache (s : Tower) (k : Uuid) (t : Tracker) : (addTracker s k t).mem.cache = s.mem.cache := by
+  unfold addTracker; split <;> rfl
+
+theorem handleBreach_cache (s : Tower) (node : Node) (k : Uuid) (d p : TxId) (u : User) :
+    (handleBreach s node k d p u).1.mem.cache = s.mem.cache := by
+  unfold handleBreach
+  split
+  · split
+    · exact (shrink_abort s _).cache
+    · exact addTracker_cache _ _ _
+  · split
+    · exact addTracker_cache _ _ _
+    · simp only
+      split
+      · rw [addTracker_cache]; exact carrierSend_cache _ _ _
+      · exact carrierSend_cache _ _ _
+
+theorem breachStep_cache (node : Node) (d : TxId) (acc : Tower × List Uuid × List Rpc) (k : Uuid) :
+    (breachStep node d acc k).1.mem.cache = acc.1.mem.cache := by
+  obtain ⟨s, inv, log⟩ := acc
+  unfold breachStep
+  simp only
+  split
+  · exact (shrink_abort s _).cache
+  · split
+    · have := handleBreach_cache s node k d ‹_› ‹Appt›.user
+      split <;> exact this
+    · rfl
+
+theorem foldl_cache {α : Type} (f : Tower × List Uuid × List Rpc → α → Tower × List Uuid × List Rpc)
+    (hf : ∀ acc a, (f acc a).1.mem.cache = acc.1.mem.cache) (l : List α) (acc : Tower × List Uuid × List Rpc) :
+    (l.foldl f acc).1.mem.cache = acc.1.mem.cache := by
+  induction l generalizing acc with
+  | nil => rfl
+  | cons x r ih => simp only [List.foldl_cons]; rw [ih, hf]
+
+theorem handleBreaches_cache (s : Tower) (node : Node) (ds : List TxId) :
+    (handleBreaches s node ds).1.mem.cache = s.mem.cache := by
+  unfold handleBreaches
+  exact foldl_cache _ (fun acc d => by unfold disputeStep; exact foldl_cache _ (breachStep_cache node d) _ acc) ds _
+
+/-- the cache after `Watcher::filtered_block_connected` is the old cache updated with the block:
+the breach handling and the deletions that follow do not touch it -/
+theorem watcherConnect_cache (s : Tower) (node : Node) (b height : Nat) (txs : List TxId) :
+    (watcherConnect s node b height txs).1.mem.cache = s.mem.cache.update b (txs.map fun t => (locOf t, t)) := by
+  unfold watcherConnect
+  simp only
+  split
+  · rw [handleBreaches_cache]
+  · rw [(shrink_deleteAppointments _ _ false).cache, handleBreaches_cache]
+
+/-- **block_then_late_add_is_triggered** (B before A, end to end): once `filtered_block_connected`
+has run for a block containing the dispute `d` — breach handling and deletions included — a
+submission for `d`'s locator that gets through authentication and the charge takes the
+"already triggered" path with a transaction of that very locator (locators being unique, C19:
+with `d` itself): it is decrypted and handed to the responder before the reply, never stored
+unwatched. `hkeep` as in `late_add_sees_block` (the locator is not being evicted with the oldest block). -/
+theorem block_then_late_add_is_triggered (s : Tower) (node : Node) (b height : Nat) (txs : List TxId) (d : TxId)
+    (hd : d ∈ txs)
+    (hkeep : ∀ h rest, (s.mem.cache.blocks ++ [b]) = h :: rest →
+        Gen.txIndexIsFull (s.mem.cache.blocks ++ [b]).length s.mem.cache.size = true →
+        locOf d ∉ ((if h = b then some (txs.map locOf) else s.mem.cache.txIn h).getD []))
+    (signer : Option User) (blob : Blob) (tsd usig : Nat) (u : User) (ui : UserInfo)
+    (ha : authCheck (watcherConnect s node b height txs).1 signer = .ok (u, ui))
+    (hnt : (watcherConnect s node b height txs).1.db.trackers (locOf d, u) = none)
+    (s1 : Tower) (avail : Nat)
+    (hch : addUpdateAppointment (watcherConnect s node b height txs).1 u (locOf d, u) blob.len = (s1, some avail)) :
+    ∃ d', locOf d' = locOf d ∧
+      (addAppointment (watcherConnect s node b height txs).1 node signer (locOf d) blob tsd usig).1 =
+        (storeTriggeredAppointment s1 node (locOf d, u)
+          { loc := locOf d, user := u, blob := blob, tsd := tsd, usig := usig,
+            start := (watcherConnect s node b height txs).1.mem.wHeight } d').1 := by
+  obtain ⟨d', hget, hloc⟩ := late_add_sees_block s.mem.cache b txs d hd hkeep
+  have hc1 : s1.mem.cache = (watcherConnect s node b height txs).1.mem.cache := by
+    have := (shrink_addUpdateAppointment (watcherConnect s node b height txs).1 u (locOf d, u) blob.len).cache
+    rw [hch] at this; exact this
+  refine ⟨d', hloc, ?_⟩
+  exact late_add_takes_triggered_path _ node signer (locOf d) blob tsd usig u ui d' ha hnt s1 avail hch
+    (by rw [hc1, watcherConnect_cache]; exact hget)
 
 /-- one iteration of the breach loop on `k` leaves `k` either with a tracker, or marked invalid
 (to be deleted), or the run aborted -/
